@@ -6,6 +6,7 @@
 #include "harness/config.hpp"
 #include <array>
 #include <map>
+#include <functional>
 
 namespace vf {
 
@@ -49,6 +50,8 @@ struct Bus {
 	bool answer_drive = true;
 	uint64_t answer_delay_us = 0;
 	unsigned long requests = 0;
+	// called after every request that was handled (C12: an adversarial interface adds traffic of its own)
+	std::function<void(const ref::Msg &request)> after_request;
 
 	void attach(Session &sess);
 	int find(const ref::Bytes &addr) const;
